@@ -27,7 +27,7 @@ type c48Base struct {
 	dec      *ref.OCSPDecoded
 	ca       *ref.OCSPCA
 	embedded *x509.Certificate
-	serial   *big.Int         // serial of the first SingleResponse
+	serial   *big.Int          // serial of the first SingleResponse
 	baseline [2]*ocsp.Response // parse of the unmodified bytes with cert = nil / cert = first serial (nil if that is an error)
 	regions  map[string][]int  // region name -> byte offsets
 	names    []string
